@@ -369,6 +369,7 @@ type aliasReport struct {
 
 func runAlias(root string, seed int64, n int) {
 	rep := aliasReport{}
+	nread := 0
 	for cfg := 0; cfg < 4; cfg++ {
 		cache, async := cfg&1 == 1, cfg&2 == 2
 		dir := filepath.Join(root, fmt.Sprintf("alias%d", cfg))
@@ -401,13 +402,54 @@ func runAlias(root string, seed int64, n int) {
 				continue
 			}
 			uuid := o.UUID()
+			aVal := o.A
 			scribble(o) // the caller keeps writing to its object
+			nread++
 			get := func() *DeepT {
-				t := &DeepT{}
-				t.Initialize(uuid)
-				g, err := db.Get(t)
+				// every way of reading an object back, in turn
+				nread++
+				var g sod.Object
+				var err error
+				switch nread % 5 {
+				case 0:
+					t := &DeepT{}
+					t.Initialize(uuid)
+					g, err = db.Get(t)
+				case 1:
+					g, err = db.GetByUUID(&DeepT{}, uuid)
+				case 2:
+					var objs []sod.Object
+					if objs, err = db.Search(&DeepT{}, "A", "=", aVal).Collect(); err == nil {
+						err = fmt.Errorf("not among the results of a search on A")
+						for _, x := range objs {
+							if x.UUID() == uuid {
+								g, err = x, nil
+							}
+						}
+					}
+				case 3:
+					var ts []*DeepT
+					if err = db.AssignAll(&DeepT{}, &ts); err == nil {
+						err = fmt.Errorf("not among the results of AssignAll")
+						for _, x := range ts {
+							if x.UUID() == uuid {
+								g, err = x, nil
+							}
+						}
+					}
+				default:
+					var ts []*DeepT
+					if err = db.Search(&DeepT{}, "A", "=", aVal).Assign(&ts); err == nil {
+						err = fmt.Errorf("not among the results of Search.Assign")
+						for _, x := range ts {
+							if x.UUID() == uuid {
+								g, err = x, nil
+							}
+						}
+					}
+				}
 				if err != nil {
-					fail("get: %v", err)
+					fail("read (path %d): %v", nread%5, err)
 					return nil
 				}
 				return g.(*DeepT)
